@@ -1,5 +1,6 @@
 import Rcgen.Model.Cli
 import Rcgen.Theorems.C03
+import Rcgen.Theorems.C12
 /-
   C18 — the CLI writes a usable CA and end-entity pair for any valid options.
   Model: `cliRun` (Model/Cli.lean): parsed options → error, or the two parameter sets and the
@@ -159,6 +160,70 @@ theorem cli_pair_chains (H : Hashes) (aws : Bool) (o : CliOptions) (plan : CliPl
     akiValue H (C03.issuerView plan.ca caKey) = plan.ca.keyIdMethod.derive H (spkiDer caKey) :=
   ⟨C03.issuer_name_bytes H plan.ee plan.ca eeKey caKey anyIssuer, C03.aki_eq_issuer_ski H plan.ca caKey⟩
 
+/-- the purposes the end-entity certificate is good for: any when no flag was given, otherwise
+    exactly the flagged ones -/
+def purposeAllowed (o : CliOptions) (u : Spec.Purpose) : Bool :=
+  (!o.clientAuth && !o.serverAuth) ||
+  (match u with
+   | .clientAuth => o.clientAuth
+   | .serverAuth => o.serverAuth)
+
+/-- **the written pair validates**: an RFC 5280 §6.1 validator, run on what the two certificates
+    the tool writes decode to (C02), with the CA as trust anchor, accepts the end-entity
+    certificate — at every time inside the tool's fixed validity window, for exactly the
+    purposes the flags ask for, whether or not the anchor itself is checked and key usage is
+    enforced, for every valid option set, every pair of keys and every hash family -/
+theorem cli_pair_validates (H : Hashes) (aws ac kc : Bool) (o : CliOptions) (plan : CliPlan)
+    (h : cliRun aws o = .ok plan) (caKey eeKey : PubKey) (t : Int) (u : Spec.Purpose)
+    (ht : defaultParams.notBefore.epochSeconds ≤ t ∧ t ≤ defaultParams.notAfter.epochSeconds) :
+    Spec.validate ac kc
+      ((C12.chainOf H [⟨plan.ca, caKey⟩, ⟨plan.ee, eeKey⟩]).map Proofs.CertDecode.modelTbs) t u =
+      purposeAllowed o u := by
+  have hv := C12.validator_verdict_is_implied H ac kc [⟨plan.ca, caKey⟩] ⟨plan.ee, eeKey⟩ t u
+    (by simp) ?_
+  · simp only [List.cons_append, List.nil_append] at hv
+    rw [hv]
+    unfold cliRun at h
+    split at h
+    · cases h
+    · split at h
+      · cases h
+      · split at h
+        · cases h
+        · split at h
+          · cases h
+          · injection h with h; subst h
+            obtain ⟨ht1, ht2⟩ := ht
+            have tv1 : Spec.pTimeValid (cliCaParams o.countryName o.organizationName) t = true := by
+              simp only [Spec.pTimeValid, cliCaParams, cliBase, Bool.and_eq_true]
+              exact ⟨decide_eq_true ht1, decide_eq_true ht2⟩
+            have tv2 : ∀ sans, Spec.pTimeValid (cliEeParams o.commonName sans o.clientAuth o.serverAuth) t = true := by
+              intro sans
+              simp only [Spec.pTimeValid, cliEeParams, cliBase, Bool.and_eq_true]
+              exact ⟨decide_eq_true ht1, decide_eq_true ht2⟩
+            simp only [Spec.expectedVerdict, List.map_cons, List.map_nil, List.reverse_cons,
+              List.reverse_nil, List.nil_append, List.cons_append, List.length_cons, List.length_nil,
+              List.range, List.range.loop, List.zip_cons_cons, List.zip_nil_right, List.all_cons,
+              List.all_nil, Bool.and_true, tv1, tv2]
+            cases hc : o.clientAuth <;> cases hs : o.serverAuth <;> cases u <;> cases ac <;> cases kc <;>
+              simp [hc, hs, purposeAllowed, Spec.pEkuAllows, Spec.pIsCa, Spec.pMayCertSign, Spec.pPathLen,
+                Spec.pNcAllowsLeaf, cliCaParams, cliEeParams, cliBase, defaultParams, Spec.rfcEkuOid,
+                Spec.Purpose.oid]
+  · -- neither certificate carries caller-supplied extensions
+    intro l hl e he
+    unfold cliRun at h
+    split at h
+    · cases h
+    · split at h
+      · cases h
+      · split at h
+        · cases h
+        · split at h
+          · cases h
+          · injection h with h; subst h
+            simp only [List.cons_append, List.nil_append, List.mem_cons, List.not_mem_nil, or_false] at hl
+            rcases hl with rfl | rfl <;> simp [cliCaParams, cliEeParams, cliBase, defaultParams] at he
+
 /-! non-vacuity -/
 def sampleOpts : CliOptions :=
   { output := [111], alg := .p256, clientAuth := false, serverAuth := true, certFileName := [99],
@@ -168,6 +233,11 @@ def sampleOpts : CliOptions :=
 example : ∃ plan, cliRun false sampleOpts = .ok plan ∧
     plan.ee.sans = [.ip [1, 2, 3, 4], .dns [97, 46, 98]] := ⟨_, rfl, rfl⟩
 example : cliRun false { sampleOpts with alg := .rsa } = .error .keyGenerationUnavailable := rfl
+-- the validity window of `cli_pair_validates` contains, e.g., 2025-06-15
+example : defaultParams.notBefore.epochSeconds ≤ 1750000000 ∧
+    (1750000000 : Int) ≤ defaultParams.notAfter.epochSeconds := by decide +kernel
+example : purposeAllowed sampleOpts .serverAuth = true ∧ purposeAllowed sampleOpts .clientAuth = false := by
+  decide
 -- `--cert-file-name x.key --ca-file-name x`: `x.key.pem` would be written twice
 example : cliRun false { sampleOpts with certFileName := [120, 46, 107, 101, 121], caFileName := [120] } =
     .error (.other "same-file") := rfl
